@@ -191,7 +191,9 @@ class Timeline:
                     if not (
                         np.allclose(_arr(x.pulse.amplitude.samples), _arr(y.pulse.amplitude.samples), rtol=1e-9, atol=1e-12)
                         and np.allclose(_arr(x.pulse.detuning.samples), _arr(y.pulse.detuning.samples), rtol=1e-9, atol=1e-12)
-                        and abs(float(x.pulse.phase) - float(y.pulse.phase)) < 1e-9
+                        # (modulo 2 pi: a reference recomputed with the other EOM configuration
+                        # may move by an ulp across the wrap, 0.0 vs 6.283185307179574)
+                        and min(abs(float(x.pulse.phase) - float(y.pulse.phase)), abs(6.283185307179586 - abs(float(x.pulse.phase) - float(y.pulse.phase)))) < 1e-9
                     ):
                         return False
             for p, q in zip(a.eom_blocks, b.eom_blocks):
